@@ -75,6 +75,11 @@ CHECKS["C08"] = ("stream/xorb", "fault_enumeration",
     "Both validators and the footer parser run on valid objects (own hash, other hash) and on mutants; never a panic, never a single allocation >= 64 MiB for <= 1 MiB input, valid accepted / other hash rejected, and every acceptance is re-verified: chunk section decodes, recomputed hash equals the accepted hash, returned footer fields agree with the chunk data. Per enumerated object the flip/truncation positions are complete; objects and multi-byte mutations are sampled.",
     XORB_NOTE, "§7 C08")
 
+CHECKS["C17"] = ("recon", "exploration",
+    "deterministic simulation of file reconstruction over a simulated blob transport (seeded latency and fragmentation per fetch on the paused clock) with the harness acting as CAS server; output oracle from virtual xorbs",
+    "Real RemoteClient writers (sequential and parallel), get_one_term, singleflight and DiskCache (none / large / one-item capacity) reconstruct seeded plans (1-40 terms, repeated xorbs, fetch ranges exact / widened / whole-xorb / windows with decoys, first-term offset, byte ranges starting and ending mid-term) in 2-3 passes (cold then warm, both writers) while term fetches complete in seeded order; output bytes, returned length and written length are compared with the slice of the concatenated term data, and passes with each other. NUM_CONCURRENT_RANGE_GETS is sampled per worker process.",
+    "Trusted: tokio, the harness's plan generator (it plays the server). reqwest / the retry middleware are not run. Each fetch info has its own URL.", "§7 C17")
+
 NOT_APPLICABLE = {
     "C06": "Every clause is a pure function of its input (hash identities, text-form round trips, avalanche); there is no schedule, clock, fault or history for a simulator to control, so deterministic simulation does not apply (DESIGN §7 C06). The independent hash implementations are exercised as oracles of C02/C03/C08.",
 }
